@@ -18,6 +18,8 @@ def pIn : List String → Option In
   | ["pong:1"] => some (.pong true)
   | ["pong:0"] => some (.pong false)
   | ["pongRaises"] => some .pongRaises
+  | ["setReconnect:1"] => some (.setReconnect true)
+  | ["setReconnect:0"] => some (.setReconnect false)
   | ["keysFlushed"] => some .keysFlushed
   | ["loop"] => some .loop
   | ["appSend"] => some .appSend
